@@ -62,8 +62,14 @@ def allof_k9(e):
     """finding predicate: an AllOf whose chosen annotation is not the annotation of its first member (nor Any)"""
     from statham.schema.elements import AllOf
     for x in walk(e)[0]:
-        if isinstance(x, AllOf) and x.annotation not in ("Any", x.elements[0].annotation):
-            return True
+        if isinstance(x, AllOf):
+            # the documented rule, recomputed here from the members: the first explicitly typed member's annotation, else the
+            # first union, else Any.  The finding is that this rule may pick a member other than the first (which builds the
+            # value); an AllOf whose annotation does NOT follow the rule is a different defect and is not covered by it.
+            anns = [m.annotation for m in x.elements]
+            expected = next((a for a in anns if a != "Any" and not a.startswith("Union")), next((a for a in anns if a != "Any"), "Any"))
+            if x.annotation == expected and expected not in ("Any", anns[0]):
+                return True
     return False
 
 
@@ -103,7 +109,20 @@ TEMPLATES += [
             "none": {"e": {"k": "Array", "items": {"k": "Nothing"}, "kw": {}}, "required": False, "source": None}}}},
      "order": ["Point", "Shape"], "root": {"k": "Ref", "name": "Shape"}},
 ]
-TEMPLATE_VALUES = [{"name": "Rex"}, {"name": "Rex", "legs": 4}, [{"name": "Rex"}], {"pts": [{"x": 1}]}, {"ns": ["one", 2]}, {"ns": [1, 2]}, {"none": [1]}, {"none": []},
+TEMPLATES += [
+    # allOf of two numeric types in both orders (the first member builds the value), defaults declared by MEMBERS of a composition
+    # (the composition itself has none: the property may be absent), in properties and under items
+    {"classes": {"Gauge": {"k": "Obj", "name": "Gauge", "base": None, "doc": None, "kw": {}, "props": {
+        "level": {"e": {"k": "AllOf", "elements": [{"k": "Number", "kw": {}}, {"k": "Integer", "kw": {}}]}, "required": False, "source": None},
+        "count": {"e": {"k": "AllOf", "elements": [{"k": "Integer", "kw": {}}, {"k": "Number", "kw": {}}]}, "required": True, "source": None},
+        "levels": {"e": {"k": "Array", "items": {"k": "AllOf", "elements": [{"k": "Number", "kw": {}}, {"k": "Integer", "kw": {"minimum": 0}}]}, "kw": {}}, "required": False, "source": None},
+        "mode": {"e": {"k": "AllOf", "elements": [{"k": "String", "kw": {"default": "auto"}}, {"k": "Element", "kw": {"enum": ["auto", "manual"]}}]}, "required": False, "source": None},
+        "kind": {"e": {"k": "AnyOf", "elements": [{"k": "String", "kw": {"default": "k"}}, {"k": "Null", "kw": {}}]}, "required": False, "source": None},
+        "one": {"e": {"k": "OneOf", "elements": [{"k": "Integer", "kw": {"default": 1}}]}, "required": False, "source": None}}}},
+     "order": ["Gauge"], "root": {"k": "Ref", "name": "Gauge"}},
+]
+TEMPLATE_VALUES = [{"count": 1}, {"count": 2, "level": 3, "levels": [1, 2]}, {"count": 2, "level": 2.5}, {"count": 1, "mode": "manual", "kind": None, "one": 5},
+                   {"name": "Rex"}, {"name": "Rex", "legs": 4}, [{"name": "Rex"}], {"pts": [{"x": 1}]}, {"ns": ["one", 2]}, {"ns": [1, 2]}, {"none": [1]}, {"none": []},
                    {"n": 1}, {"n": 3.0}, {"n": 2, "f": 2, "xs": ["a", 1, 2], "u": "s"}, {"n": 1, "xs": ["a", 3.0]}, {"n": 1, "u": 4.0}, {"n": True},
                    {"n": 1, "options": {}}, {"n": 1, "options": {"v": 2}}, {"n": 1, "d": "y", "f": 1.5}]
 
@@ -132,6 +151,8 @@ def run(tier, seed, replay=None):
             walk(c, set(id(x) for x in elems), elems, props)
         # ---- every element: the value an accepted input is built into has the element's annotation ----
         vals = (TEMPLATE_VALUES if di < len(TEMPLATES) and not replay else []) + dslgen.gen_values(rng, doc, 6)
+        # the same values with every integer written as the equal float: rejected at integer positions, or built into a float there
+        vals = vals + [f for f in (gen.floatify(v) for v in vals[:10]) if f is not None][:4]
         for e in elems[:12]:
             try:
                 text = e.annotation
@@ -173,6 +194,7 @@ def run(tier, seed, replay=None):
         for name, cls in classes.items():
             stats["classes"] += 1
             cvals = [gen.gen_value(rng, dslgen.spec_schema(doc, {"k": "Ref", "name": name})) for _ in range(6)] + [v for v in TEMPLATE_VALUES if isinstance(v, dict)][:8]
+            cvals = cvals + [f for f in (gen.floatify(v) for v in cvals[:8]) if f is not None][:4]
             insts = []
             for v in cvals:
                 tag, r = quiet_call(cls, v)
